@@ -40,7 +40,7 @@ ASSUMPTIONS = ['preemption inside C-level calls is impossible under the GIL; mor
                'creation timestamps of EPS/PDF/TeX are masked']
 CHUNK = 4
 
-CORE = ['make_ab', 'make_ab_cd', 'make_q_auto', 'eps_float_tuple', 'eps_int_tuple', 'make_m1_numeric', 'make_m2_alnum', 'make_m3_kanji', 'make_1h', 'make_2_align', 'make_parts', 'make_eci', 'make_hanzi', 'seq_version',
+CORE = ['make_eci_utf8', 'make_eci_latin', 'fail_eci_utf16', 'make_int_1', 'make_bool_true', 'make_ab', 'make_ab_cd', 'make_q_auto', 'eps_float_tuple', 'eps_int_tuple', 'make_m1_numeric', 'make_m2_alnum', 'make_m3_kanji', 'make_1h', 'make_2_align', 'make_parts', 'make_eci', 'make_hanzi', 'seq_version',
         'seq_count', 'save_png_palette', 'save_png_colorful', 'save_ppm_colormap', 'save_ppm_colormap_b', 'save_svg_colorful', 'save_pdf',
         'matrix_iter_verbose', 'helper_epc', 'cli_terminal', 'fail_overflow', 'fail_colour', 'fail_mode']
 PAIRS_SMALL = [('make_m1_numeric', 'make_m1_other'), ('make_m2_alnum', 'make_m3_byte'), ('make_m1_numeric', 'make_parts'),
